@@ -45,6 +45,27 @@ func TestMain(m *testing.M) {
 		fmt.Println("LONE-HASH", runJob(j))
 		os.Exit(0)
 	}
+	if d := os.Getenv("VERIF_C18_SEQ"); d != "" {
+		// a fresh process that runs the jobs one after the other
+		var js []job
+		if err := json.Unmarshal([]byte(d), &js); err != nil {
+			fmt.Println("SEQ-ERROR", err)
+			os.Exit(0)
+		}
+		coldData = map[string][]byte{}
+		for _, j := range js {
+			b, err := os.ReadFile(filepath.Join(fqx.RepoDir(), j.Path))
+			if err != nil {
+				fmt.Println("SEQ-ERROR", err)
+				os.Exit(0)
+			}
+			coldData[j.Path] = b
+		}
+		for i, j := range js {
+			fmt.Println("SEQ-HASH", i, runJob(j))
+		}
+		os.Exit(0)
+	}
 	if d := os.Getenv("VERIF_C18_COLD"); d != "" {
 		// cold start: the very first use of the process-wide registry happens
 		// on several goroutines at once (nothing below may touch the registry
@@ -100,6 +121,9 @@ type job struct {
 	// multi-member data): decoding is a function of the input BYTES, so the
 	// result must equal the flat decode's
 	Chunks []int `json:"chunks,omitempty"`
+	// Flip: bit offsets of the file that are inverted (a corrupt input whose
+	// decode runs into validating readers, where options such as force matter)
+	Flip []int64 `json:"flip,omitempty"`
 }
 
 func (j job) flat() job { j.Chunks = nil; return j }
@@ -214,6 +238,14 @@ func runJob(j job) (h string) {
 		}
 	}()
 	data := dataOf(j.Path)
+	if len(j.Flip) > 0 {
+		data = append([]byte(nil), data...)
+		for _, k := range j.Flip {
+			if k >= 0 && k/8 < int64(len(data)) {
+				data[k/8] ^= 0x80 >> uint(k%8)
+			}
+		}
+	}
 	if j.Kind == "tree" && len(j.Chunks) > 0 {
 		g, gerr := interp.DefaultRegistry.Group(j.Format)
 		if gerr != nil {
@@ -595,6 +627,128 @@ func TestColdStart(t *testing.T) {
 			if got[i] != want {
 				if harness.Violate(t.Name(), "cold-start:result-differs:"+j.Kind, fmt.Sprintf("job %s run as one of 8 concurrent FIRST decodes of a fresh process gave %s, sequentially %s", j.key(), got[i], want), js) {
 					t.Errorf("cold start differs for %s", j.key())
+				}
+			}
+		}
+	}
+}
+
+// seqRun runs the jobs sequentially in a fresh process.
+func seqRun(exe string, js []job) (map[int]string, bool) {
+	b, _ := json.Marshal(js)
+	cmd := exec.Command(exe, "-test.run=^$")
+	cmd.Env = append(os.Environ(), "VERIF_C18_SEQ="+string(b), "VERIF_FRAG=", "GORACE=halt_on_error=0")
+	out, err := cmd.CombinedOutput()
+	got := map[int]string{}
+	for _, l := range strings.Split(string(out), "\n") {
+		var i int
+		var h string
+		if n, _ := fmt.Sscanf(l, "SEQ-HASH %d %s", &i, &h); n == 2 {
+			got[i] = h
+		}
+	}
+	return got, err == nil && len(got) == len(js)
+}
+
+// An option of an EARLIER job must not decide what a later job does (seed
+// C18-4: a validating mapper created once per process closed over the force
+// option of whichever decode came first; within one process every run after
+// the first agrees with every other, so only processes with different
+// histories can tell).  Per format: corrupt variants B of a sample file (bits
+// of 1-bit fields and first bits of other small fields inverted, so that
+// validating readers fail) are decoded
+//   P1: after a FORCED decode of the intact file      P2: on their own
+//   P3: forced, after a PLAIN decode of the intact file  P4: forced, on their own
+// in fresh processes; B's results must agree between P1/P2 and between P3/P4.
+func TestOptionLeak(t *testing.T) {
+	buildPool()
+	exe, err := os.Executable()
+	if err != nil {
+		t.Skip("no executable path")
+	}
+	seen := map[string]bool{}
+	idx := 0
+	for _, fj := range treeJobs {
+		if fj.Format == "probe" || seen[fj.Format] || len(dataOf(fj.Path)) == 0 {
+			continue
+		}
+		// the first (smallest) file of every format on its home format
+		seen[fj.Format] = true
+		idx++
+		if !harness.Mine(idx) {
+			continue
+		}
+		top, _, _ := fqx.Decode(context.Background(), dataOf(fj.Path), fj.Format, false)
+		if top == nil {
+			continue
+		}
+		var ones, others []int64
+		fqx.Walk(top, func(v *decode.Value, depth int) {
+			if _, ok := v.V.(*decode.Compound); ok || v.RootReader != top.RootReader {
+				return
+			}
+			if s, ok := v.V.(scalar.Scalarable); ok && s.ScalarFlags().IsSynthetic() {
+				return
+			}
+			switch {
+			case v.Range.Len == 1:
+				ones = append(ones, v.Range.Start)
+			case v.Range.Len >= 2 && v.Range.Len <= 32:
+				others = append(others, v.Range.Start)
+			}
+		})
+		pick := func(xs []int64, n int, salt uint64) []int64 {
+			if len(xs) <= n {
+				return xs
+			}
+			var out []int64
+			h := harness.HashInts(salt, uint64(idx), harness.E.Seed)
+			for i := 0; i < n; i++ {
+				h = h*6364136223846793005 + 1442695040888963407
+				out = append(out, xs[int((h>>33)%uint64(len(xs)))])
+			}
+			return out
+		}
+		var flips []int64
+		flips = append(flips, pick(ones, harness.N(10, 64), 1)...)
+		flips = append(flips, pick(others, harness.N(6, 64), 2)...)
+		if len(flips) == 0 {
+			continue
+		}
+		var plainB, forcedB []job
+		for _, k := range flips {
+			b := fj
+			b.Flip = []int64{k}
+			plainB = append(plainB, b)
+			b.Force = true
+			forcedB = append(forcedB, b)
+		}
+		aForced, aPlain := fj, fj
+		aForced.Force = true
+		type run struct {
+			name   string
+			with   []job
+			alone  []job
+			prefix int
+		}
+		for _, r := range []run{
+			{"plain-after-forced", append([]job{aForced}, plainB...), plainB, 1},
+			{"forced-after-plain", append([]job{aPlain}, forcedB...), forcedB, 1},
+		} {
+			with, ok1 := seqRun(exe, r.with)
+			alone, ok2 := seqRun(exe, r.alone)
+			if !ok1 || !ok2 {
+				harness.ExtraAdd("option_leak_inconclusive", 1)
+				continue
+			}
+			harness.Count(harness.HashInts(88, uint64(idx), harness.E.Seed, harness.HashBytes([]byte(r.name))), true, "option-leak-pair-of-processes", "leak-"+r.name)
+			harness.ExtraAdd("option_leak_corrupt_variants", int64(len(r.alone)))
+			for i, j := range r.alone {
+				if with[i+r.prefix] != alone[i] {
+					if harness.Violate(t.Name(), "result-depends-on-option-of-earlier-job:"+r.name, fmt.Sprintf("job %s gave %s after a decode of the intact file with the other force setting, %s in a process that had not seen one", j.key(), with[i+r.prefix], alone[i]), map[string]any{"with": r.with, "alone": r.alone}) {
+						t.Errorf("%s: %s", r.name, j.key())
+					}
+					break
 				}
 			}
 		}
